@@ -36,7 +36,9 @@ LEVEL_TEXT = ("Seeded (prefix pair, message/payload set, broker event schedule, 
               "arguments, subscription coverage (broker-side filter matching), FIFO exactly-once delivery of messages "
               "and errors to reads, non-progress detection at quiescence (an injected event never delivered to a "
               "blocked reader = silently deaf), echo round trip through a real Gateway, and disconnect at arbitrary "
-              "instants. Plus the hook-level contract of an MQTTTransport subclass.")
+              "instants, a second session on the same object, a retried connect after an injected connect/subscribe "
+              "failure (all five command classes must be received afterwards) and bursts of up to 1000 messages before "
+              "the first read. Plus the hook-level contract of an MQTTTransport subclass.")
 LEVEL_NOTE = ("Trusted: SimMqttClient/SimBroker model connect/subscribe/publish/unexpected-disconnect as aiomqtt "
               "exposes them; real paho-mqtt and sockets never run. After a broker error nothing further is demanded of "
               "reads (the application is expected to reconnect).")
